@@ -22,7 +22,7 @@ def model_expr(kind, failsafe, T, X, Y, obs, hist, fut, parallel, sched=None):
 
 def add_case(cc, meta, res, r, kind, X, Y, failing, failsafe, parallel, nproc, sleep=True):
     To, Th, Tf = r.randint(2, 4), r.randint(2, 4), r.randint(2, 4)
-    obs = G.mark_failing(G.rand_grid(r, To, X, Y), failing)
+    obs = G.mark_failing(G.rand_grid(r, To, X, Y), failing, r)
     hist, fut = G.rand_grid(r, Th, X, Y), G.rand_grid(r, Tf, X, Y)
     d = G.make_probe(kind, sleep=sleep and parallel)
     out, err = G.run_apply(d, obs, hist, fut, parallel=parallel, nr_processes=nproc, failsafe=failsafe)
